@@ -128,6 +128,25 @@ def split_impl(m):
     return cls, label, val
 
 
+def sig_of(m):
+    """what differs in a MISMATCH line: the label without its numbers + the index of the first differing `|` field"""
+    _, label, val = split_impl(m)
+    lab = re.sub(r"[0-9]+", "", label)
+    a, b = val.split("|"), m["expected"].split("|")
+    i = 0
+    while i < len(a) and i < len(b) and a[i] == b[i]:
+        i += 1
+    return "%s#%d" % (lab, i)
+
+
+def neighbor_search(hbin, runner, flags, cases, seed, count):
+    """Escalated search after a correspondence break: cases near the ones on which code and model differ (harness mode
+    `neighbors`), judged by the extracted specification.  Returns (spec/wfq mismatches, stats)."""
+    cmds = ["neighbors %s %d %d" % (shlex.quote(c), count, seed * 7 + i) for i, c in enumerate(cases)]
+    mism, stats = run_cases(hbin, runner, flags, cmds)
+    return [m for m in mism if m["kind"] in ("spec", "wfq")], stats
+
+
 def run(tier, seed, replay=None):
     res = Result("C04", tier, seed, "proof")
     thm = check_theorems("C04")
@@ -196,6 +215,19 @@ def run(tier, seed, replay=None):
         by.setdefault((m["kind"], cls), []).append(m)
 
     reported_spec_classes = set()
+    spec_sigs = {}      # (class, what differs) -> shortest case with a property violation of that kind
+    for m in mism:
+        if m["kind"] == "spec":
+            k = (split_impl(m)[0], sig_of(m))
+            if k not in spec_sigs or len(m["case"]) < len(spec_sigs[k]["case"]):
+                spec_sigs[k] = m
+    # differences from the model of the code that are not at a label where the same case violates the specification
+    # (those are kind `modelx`: the same failing observation, already reported with its case as a property violation)
+    model_groups = {}
+    for m in mism:
+        if m["kind"] == "model":
+            model_groups.setdefault((split_impl(m)[0], sig_of(m)), []).append(m)
+    search_cov = {"ran": False}
     for (kind, cls), ms in sorted(by.items()):
         if kind != "spec":
             continue
@@ -206,9 +238,19 @@ def run(tier, seed, replay=None):
         rep = {"theorem_or_correspondence": "C04 oracle: impl vs extracted specification (PV.Iter.Spec)" + (", Coq: " + coqthm if coqthm else ""),
                "case": worst["case"], "class": cls, "label": label, "impl": val, "spec": worst["expected"],
                "cases_in_class": count, "suggested_fix": patch,
+               "smallest_case_per_stream": {k: min((m["case"] for m in ms if m["case"][:1] == k), key=len)[:600]
+                                            for k in sorted(set(m["case"][:1] for m in ms))},
+               "model_of_the_code_differs_at_the_same_observation_on": stats.get("modelx/" + cls, 0),
+               "correspondence_also_broken_same_kind_of_difference": sorted(
+                   "%s on %s" % (sg, min(g, key=lambda m: len(m["case"]))["case"][:200]) for (c2, sg), g in model_groups.items()
+                   if c2 == cls and (c2, sg) in spec_sigs)[:6],
                "case_legend": "kind|DFS depth|heavy cap|scripts|input|payload; labels: V<k> views of pair k (pre-order), root/I<k>/G<k> = "
                               "root Pairs / into_inner of pair k / Pairs::single(pair k); .D/.F/.T next-next_back DFS on Pairs/FlatPairs/Tokens "
-                              "(len,is_empty,peek per state), .S<i>.<j> views after i next and j next_back: as_str|concat|{}|{:#}|{:?}|json"}
+                              "(len,is_empty,peek per state), .S<i>.<j> views after i next and j next_back: as_str|concat|{}|{:#}|{:?}|json; "
+                              "V<k> fields: rule,tag|span|as_str|line_col|{}|{:#}|{:?}|json|tokens, line_col `l,c!POSl2,c2` = Pair::line_col differs from "
+                              "as_span().start_pos().line_col(); .alt = `way:pair:rule,tag|span|as_str|line_col` for every pair that shows other views when "
+                              "reached by flatten (f), flatten().rev() (fb), rev() (b), peek (p), flatten().next_back() (fl), find_tagged (t, t1) than when "
+                              "reached by next + into_inner (empty = all agree)"}
         if cls in known:
             res.known_finding("class=%s witness=%s (%d cases)" % (cls, worst["case"][:160], count))
         else:
@@ -222,15 +264,54 @@ def run(tier, seed, replay=None):
         if kind == "spec":
             continue
         worst = min(ms, key=lambda m: len(m["case"]))
+        if kind == "modelx":
+            continue
         if kind == "model":
             if cls in reported_spec_classes and cls != "other":
                 continue
-            _, label, val = split_impl(worst)
-            res.violation("correspondence broken: the real iterators differ from coq/Iter/Model.v (flags %s) at %s on case %s: impl `%s` vs model `%s`; "
-                          "no disagreement with the specification was found for this class" % (flags, label, worst["case"], val[:120], worst["expected"][:160]),
-                          {"theorem_or_correspondence": "C04 correspondence: impl vs extracted PV.Iter.Model", "case": worst["case"],
-                           "label": label, "impl": val, "model": worst["expected"], "searched": stats},
-                          no_failing_input=True)
+            groups = sorted(((sg, g) for (c2, sg), g in model_groups.items() if c2 == cls), key=lambda x: x[0])
+            for sg, g in groups:
+                worst = min(g, key=lambda m: len(m["case"]))
+                _, label, val = split_impl(worst)
+                if (cls, sg) in spec_sigs and cls not in known:
+                    # the same kind of difference (same view, same field) violates the specification on another case of this
+                    # run: that case is the failing input (reported above); nothing more to search
+                    log("C04: correspondence break at %s (%s) on %s: the same observation violates the specification on %s" % (
+                        label, sg, worst["case"][:120], spec_sigs[(cls, sg)]["case"][:120]))
+                    continue
+                # escalate: search near the differing cases for one that the specification judges
+                starts = [m["case"] for m in sorted(g, key=lambda m: len(m["case"]))[:3]]
+                count = 1500 if tier == "quick" else 12000
+                found, nstats = neighbor_search(hbin, runner, flags, starts, seed, count)
+                search_cov = {"ran": True, "start_cases": search_cov.get("start_cases", 0) + len(starts),
+                              "cases_tried": search_cov.get("cases_tried", 0) + nstats.get("cases", 0),
+                              "found": search_cov.get("found", 0) + (1 if found else 0)}
+                found = [m for m in found if not (m["kind"] == "spec" and split_impl(m)[0] in known)]
+                if found:
+                    w = min(found, key=lambda m: len(m["case"]))
+                    if w["kind"] == "spec":
+                        c3, l3, v3 = split_impl(w)
+                        res.violation("correspondence broken: the real iterators differ from coq/Iter/Model.v (flags %s) at %s on case %s (impl `%s` vs model `%s`); "
+                                      "the search around that case (%d cases) found a property violation: case %s, label %s: impl `%s` vs spec `%s`" % (
+                                          flags, label, worst["case"][:200], val[:100], worst["expected"][:100], nstats.get("cases", 0),
+                                          w["case"], l3, v3[:120], w["expected"][:160]),
+                                      {"theorem_or_correspondence": "C04 oracle: impl vs extracted specification (PV.Iter.Spec), found by the search around a "
+                                                                    "correspondence break (impl vs extracted PV.Iter.Model)",
+                                       "case": w["case"], "class": c3, "label": l3, "impl": v3, "spec": w["expected"],
+                                       "correspondence_break": {"case": worst["case"], "label": label, "impl": val, "model": worst["expected"]},
+                                       "searched": nstats})
+                    else:
+                        res.violation("correspondence broken at %s on case %s; the search around it found a successful parse whose token stream is not a "
+                                      "well-formed queue: %s" % (label, worst["case"][:200], w["case"][:300]),
+                                      {"theorem_or_correspondence": "C04 first sentence: extracted wfqb on the token queue of a real parse result",
+                                       "case": w["case"], "class": "other", "impl": w["impl"], "spec": w["expected"], "searched": nstats})
+                    continue
+                res.violation("correspondence broken: the real iterators differ from coq/Iter/Model.v (flags %s) at %s on case %s: impl `%s` vs model `%s`; "
+                              "no disagreement with the specification was found for this kind of difference (%s), neither in the run nor among %d cases "
+                              "generated around the differing ones" % (flags, label, worst["case"], val[:120], worst["expected"][:160], sg, nstats.get("cases", 0)),
+                              {"theorem_or_correspondence": "C04 correspondence: impl vs extracted PV.Iter.Model", "case": worst["case"],
+                               "label": label, "impl": val, "model": worst["expected"], "searched": stats, "searched_around": nstats},
+                              no_failing_input=True)
         elif kind == "wfq":
             # one failing input per kind of source (generated grammar / closure tree / fixed grammar), the shortest each
             groups = {}
@@ -279,14 +360,22 @@ def run(tier, seed, replay=None):
         "evaluations": stats.get("evaluations", 0),
         "distinct_nontrivial": stats.get("distinct_nontrivial", 0),
         "rule": bounds + "; random PairsBuilder forests of 5-30/40 nodes with random scripts over next/next_back/len/peek of length <= 40; "
-                "random PairsBuilder call sequences incl. bad spans and tag-before-rule; pest_vm parses of 5 small grammars on all inputs up to a "
-                "length bound; pest_vm on GENERATED grammars (3-5 rules of all five types calling each other, nested positive/negative look-aheads "
+                "random PairsBuilder call sequences: bad spans and tag-before-rule, unordered boundary spans, and well-formed trees up to depth 4; "
+                "input texts of the builder / closure-tree runs over x y U+00E9 U+4F60 U+1F388 double-quote and the line breaks \\n, \\r\\n, lone \\r "
+                "(the exhaustive forests alternate between two fixed texts, one with every line-break kind incl. positions between \\r and \\n; "
+                "one random forest in three lies over a text of many short lines); pest_vm parses of 6 small grammars (one of lines separated by "
+                "every line-break kind) on all inputs up to a length bound; pest_vm on GENERATED grammars (3-5 rules of all five types calling each other, nested positive/negative look-aheads "
                 "around rule references, repetitions with a trailing mismatch, choices whose first alternative fails late, !{}/${} inside @{}, "
-                "token-emitting WHITESPACE/COMMENT) on all inputs up to length 5/6 over {x,y,space}, one case per distinct token stream; random "
+                "token-emitting WHITESPACE/COMMENT) on all inputs up to length 5/6 over {x,y,space} - one grammar in three has a WHITESPACE of two of "
+                "{space, \\r\\n, \\n, \\r} and all inputs over x, y and these two, one shorter -, one case per distinct token stream; random "
                 "ParserState closure trees: own generator (rule/sequence/repeat/optional/lookahead/tag_node) and pvharness::prog::gen plus a token-"
                 "oriented generator (depth <= 7; the REAL queue incl. cross-links is read with verif_dump and checked with the extracted wfqb). One evaluation = one tree with the "
                 "full observation (per-pair views, and per Pairs value - root, every into_inner, every single - the DFS on Pairs/FlatPairs/Tokens, the "
-                "canonical-state string views, find_tagged). non-trivial = distinct case whose forest has nesting depth >= 2 and a sibling list of "
+                "canonical-state string views, find_tagged; label .alt: rule/tag/span/as_str/line_col of every pair reached by flatten, flatten().rev(), "
+                "rev(), peek, find_tagged compared in the harness with the same pair reached by next + into_inner; line_col of every pair also compared "
+                "with as_span().start_pos().line_col()). After a difference from the model of the code that is no difference from the specification on the "
+                "same case and observation, nor the same kind of difference as a property violation elsewhere in the run: search around the differing "
+                "cases (harness mode neighbors; see search_after_correspondence_break for what it covered when it ran). non-trivial = distinct case whose forest has nesting depth >= 2 and a sibling list of "
                 "length >= 2 (builder), >= 3 pairs (parses), >= 2 calls (call sequences)",
         "exhaustive": True,
         "exhaustive_bound": bounds + " (the theorems are unbounded)",
@@ -298,8 +387,9 @@ def run(tier, seed, replay=None):
         "build_note": build_note,
         "real_parses": {k: stats.get(k, 0) for k in ("grammars", "rejected", "parses", "ok_parses", "programs_tried", "ok_runs")},
         "classes": {k: v for k, v in stats.items() if "/" in str(k)},
+        "search_after_correspondence_break": search_cov,
     })
-    res.assumptions = ["input alphabet of the differential runs: x y U+00E9 U+4F60 newline double-quote space ( ) - the theorems are for arbitrary byte strings",
+    res.assumptions = ["input alphabet of the differential runs: x y a b U+00E9 U+4F60 U+1F388 \\n \\r\\n \\r double-quote space ( ) - the theorems are for arbitrary byte strings",
                        "rules and tags are numeric ids in the model, 3 rules / 3 tags in the runs",
                        "harness built with debug-assertions and overflow-checks (so debug_assert!/usize underflow panic as modelled)"]
     return res.finish()
